@@ -115,6 +115,36 @@ def gen(n, seed):
     print(len(ms), 'mutants over', len(anchors()), 'files')
 
 
+def gen2(quota, seed):
+    """a second batch, appended to mutants.json: condition / operator / constant mutants and dropped calls (plain
+    assignments are left out: most of batch 1's survivors were deleted initialisations), `quota` per kind"""
+    rng = random.Random(seed)
+    path = os.path.join(OUT, 'mutants.json')
+    ms = json.load(open(path))
+    old = {m['id'] for m in ms}
+    pool = {}
+    for f, props in sorted(anchors().items()):
+        src = open(os.path.join('/repo', f), newline='').read().replace('\r\n', '\n')
+        for c in candidates(f, src):
+            try:
+                ast.parse(apply(src, c))
+            except SyntaxError:
+                continue
+            c.update(file=f, props=props, id='%s:%d:%s' % (f.replace('scales/', ''), c['line'], c['kind']), batch=2)
+            if c['id'] in old or (c['kind'] == 'delete' and '=' in c['before'].split('(')[0]):
+                continue
+            pool.setdefault(c['kind'], {})[c['id']] = c
+    n = 0
+    for kind, cs in sorted(pool.items()):
+        cs = sorted(cs.values(), key=lambda c: c['id'])
+        rng.shuffle(cs)
+        for c in cs[:quota.get(kind, 0)]:
+            ms.append(c)
+            n += 1
+    json.dump(ms, open(path, 'w'), indent=1)
+    print(n, 'mutants added;', len(ms), 'in all')
+
+
 def run_one(m, lane):
     repo = '/work/mut%d/repo' % lane
     subprocess.run(['git', '-C', repo, 'checkout', '--', '.'], check=True)
@@ -231,6 +261,8 @@ if __name__ == '__main__':
     cmd = sys.argv[1]
     if cmd == 'gen':
         gen(int(sys.argv[2]), int(sys.argv[3]))
+    elif cmd == 'gen2':
+        gen2({'cmp': 80, 'boolop': 34, 'negate': 80, 'delete': 80, 'const': 24, 'bool': 20}, int(sys.argv[2]))
     elif cmd == 'run':
         run(int(sys.argv[2]))
     elif cmd == 'lane':
